@@ -330,15 +330,12 @@ fn run(ctx: &mut Ctx) {
             }
         });
     }
-    let sets: Vec<_> = ctx.guard(|| DSets::new(2, tier.pick(8, 10)).collect::<Vec<_>>()).unwrap_or_default();
+    let sets: Vec<_> = ctx.supply("DSets::new", || DSets::new(2, tier.pick(8, 10)).collect::<Vec<_>>());
     for ds in sets {
         if !ctx.take() {
             continue;
         }
-        let syms = match ctx.guard(|| DSyms::new(&ds, Geometries::All).collect::<Vec<_>>()) {
-            Ok(v) => v,
-            Err(_) => continue,
-        };
+        let syms = ctx.supply("DSyms::new", || DSyms::new(&ds, Geometries::All).collect::<Vec<_>>());
         for sy in syms {
             if let Ok(Some(s)) = ctx.guard(|| from_dsym(&sy)) {
                 let _ = (sy.size(), sy.v(0, 1, 1));
